@@ -66,7 +66,15 @@ func genClusterText(r *Rng) string {
 			mid := lo + (hi-lo)/2
 			m.slots = []string{fmt.Sprintf("%d-%d", lo, mid), fmt.Sprintf("%d-%d", mid+1, hi)}
 		case 1:
-			m.slots = []string{fmt.Sprintf("%d-%d", lo, hi), fmt.Sprintf("[%d->-%s]", lo, id[:8])}
+			// a slot in migration: the source lists `[slot->-target]`, the target lists `[slot-<-source]` (resharding)
+			marker := fmt.Sprintf("[%d->-%s]", lo, id[:8])
+			if r.Bool() {
+				marker = fmt.Sprintf("[%d-<-%s]", lo, id[:8])
+			}
+			m.slots = []string{fmt.Sprintf("%d-%d", lo, hi), marker}
+			if r.Chance(1, 3) {
+				m.slots = []string{marker, fmt.Sprintf("%d-%d", lo, hi)}
+			}
 		case 2:
 			m.slots = []string{strconv.Itoa(lo), fmt.Sprintf("%d-%d", lo+1, hi)}
 		default:
